@@ -876,8 +876,8 @@ func main() {
 	section("runLock")
 	runGen(run, r.Fork(4), run.N(1500, 20000))
 	section("runGen")
-	runMigRoots(run, r.Fork(6), run.N(60, 600))
-	section("runMigRoots")
+	runMigWs(run, r.Fork(6), run.N(80, 300))
+	section("runMigWs")
 	runMigrations(run, r.Fork(5), run.N(60, 500))
 	section("runMigrations")
 	run.Finish()
